@@ -106,6 +106,35 @@ def _check_append(case):
     return 1, f"{len(ea)}+{len(eb)}", (kind, len(ea), len(eb), spa, spb), viols
 
 
+DEC_SPANS = (0.7, 1.1, 1.3, 2.2, 2.3, 3.2, 4.1, 4.6, 7.9, 12.3, 100.7)
+
+
+def _check_append_decimal(case):
+    """tiers annotated edge to edge (A's last entry ends at A's end, B's first starts at 0) with ordinary decimal durations: B's entries are
+    moved by exactly A's end time - the floating-point sum A.max + t, bit for bit; a shift obtained in another way ((A.max + B.max) - B.max)
+    is a different number for about half of such pairs and makes the seam overlap or reorder"""
+    kind, a, b = case
+    if kind == "I":
+        A = IT("A", [(0.0, a / 2, "x"), (a / 2, a, "y")], 0.0, a)
+        B = IT("B", [(0.0, b / 2, "u"), (b / 2, b, "v")], 0.0, b)
+        exp = [(0.0, a / 2, "x"), (a / 2, a, "y"), (a + 0.0, a + b / 2, "u"), (a + b / 2, a + b, "v")]
+    else:
+        A = PT("A", [(0.0, "x"), (a, "y")], 0.0, a)
+        # (B's first point not at 0: two points at one time have no time order, and the library sorts them by label)
+        B = PT("B", [(b / 4, "u"), (b, "v")], 0.0, b)
+        exp = [(0.0, "x"), (a, "y"), (a + b / 4, "u"), (a + b, "v")]
+    st, r, _ = call(A.appendTier, B)
+    tag = f"appendTier of edge-to-edge {kind} tiers spanning {a} and {b}"
+    if st == "exc":
+        return 1, "X", None, [Viol("append-raised:" + type(r).__name__, f"{tag} raised {r!r}")]
+    viols = []
+    if ents(r) != exp:
+        viols.append(Viol("append-not-shifted-by-exactly-the-end-time", f"{tag}: {ents(r)}, expected {exp}"))
+    elif (r.minTimestamp, r.maxTimestamp) != (0.0, a + b):
+        viols.append(Viol("append-span", f"{tag}: span ({r.minTimestamp}, {r.maxTimestamp}), expected (0.0, {a + b})"))
+    return 1, "ok", (kind, a, b), viols
+
+
 def _check_append_mismatch(case):
     ea, eb = case
     A = IT("A", list(ea), 0.0, 4.0)
@@ -354,6 +383,12 @@ def parts(tier):
         rule="all ordered pairs (A,B) of interval sets / point subsets x spans of A and B; result = A's entries "
              "followed by B's shifted by A's end, span end = sum of both ends; operands unchanged",
         bounds={"max_entries_per_operand": 2 if quick else 3}))
+
+    ps.append(InputPart(
+        "append-tier-decimal-spans", lambda: ((k, a, b) for k in ("I", "P") for a in DEC_SPANS for b in DEC_SPANS if a != b), _check_append_decimal,
+        rule="all ordered pairs of the %d decimal durations %s x interval / point tiers annotated edge to edge: B's entries land exactly at "
+             "A.max + t (the floating-point sum, bit for bit), the span ends at A.max + B.max, nothing raises at the seam" % (len(DEC_SPANS), DEC_SPANS),
+        bounds={"durations": len(DEC_SPANS)}))
 
     def gen_mismatch():
         for sa in asets[:12]:
